@@ -363,7 +363,7 @@ pub fn run(ctx: &Ctx) -> Coverage {
     let ss = c07_schemas(ctx);
     ctx.note(format!("{} schemas", ss.len()));
     let b256 = vocab::b256();
-    let top_cap = ctx.tier.pick(60, 400);
+    let top_cap = ctx.tier.pick(200, 1000);
     ss.par_iter().for_each(|schema| {
         if ctx.over_budget() {
             ctx.count("schemas_skipped_budget", 1);
